@@ -416,3 +416,125 @@ def frame_scan(inp):
         if n == inp["obligation"]:
             return {"fails": not ok, "expected": "holds", "observed": d}
     return {"fails": False, "observed": "obligation no longer generated"}
+
+
+# ---------------------------------------------------------------------------------------
+# sockets
+# ---------------------------------------------------------------------------------------
+def make_socket(data, schedule):
+    """A socket double: schedule is a list of ints (max bytes of that recv) or 'timeout' / 'oserror'; when the
+    schedule is exhausted the rest arrives in one piece and then the peer closes."""
+    import socket
+
+    class FakeSocket(socket.socket):
+        def __init__(self):  # noqa: no real socket is opened
+            self.data, self.pos, self.sched, self.log = data, 0, list(schedule), []
+
+        def recv(self, n):
+            ev = self.sched.pop(0) if self.sched else None
+            if ev == "timeout":
+                self.log.append("timeout")
+                raise TimeoutError("timed out")
+            if ev == "oserror":
+                self.log.append("oserror")
+                raise OSError("reset")
+            k = n if ev is None else max(1, min(n, ev))
+            d = self.data[self.pos:self.pos + k]
+            self.pos += len(d)
+            self.log.append(len(d))
+            return d
+
+        def __del__(self):
+            pass
+
+        def close(self):
+            pass
+    return FakeSocket()
+
+
+@check
+def socket_plain(inp):
+    """C11: reads through SocketWrapper return the peer's bytes in order, all-or-nothing, short only after a failed receive."""
+    from pyrtcm.socketwrapper import SocketWrapper
+    data = bytes.fromhex(inp["data"])
+    sock = make_socket(data, inp.get("schedule", []))
+    w = SocketWrapper(sock, bufsize=inp.get("bufsize", 4096))
+    got = b""
+    for req in inp["reads"]:
+        before = len(sock.log)
+        if req == "line":
+            r = w.readline()
+            rest = data[len(got):]
+            i = rest.find(b"\n")
+            want = rest[:i + 1] if i >= 0 else None
+            if data[len(got):len(got) + len(r)] != r or (want is not None and r != want and not (len(r) < len(want) and any(x in ("timeout", "oserror", 0) for x in sock.log[before:]))):
+                return {"fails": True, "expected": f"line {want!r}", "observed": repr(r)}
+        else:
+            r = w.read(req)
+            failed = any(x in ("timeout", "oserror", 0) for x in sock.log[before:])
+            if data[len(got):len(got) + len(r)] != r or len(r) not in (0, req) or (len(r) < req and not failed):
+                return {"fails": True, "expected": f"{req} bytes {data[len(got):len(got) + req].hex()} (or b'' after a failed receive)",
+                        "observed": f"{r.hex()} recv log {sock.log[before:]}"}
+        got += r
+    # nothing lost: drain
+    sock.sched = []
+    while True:
+        r = w.read(1)
+        if not r:
+            break
+        got += r
+    return {"fails": got != data, "expected": data.hex()[:80], "observed": got.hex()[:80]}
+
+
+@check
+def socket_reader(inp):
+    """C11/C02: RTCMReader over a socket returns the same messages as over a file with the same bytes."""
+    import io
+    from pyrtcm import RTCMReader
+    data = bytes.fromhex(inp["data"])
+    a = [r[0] for r in RTCMReader(io.BytesIO(data), quitonerror=0)]
+    b = [r[0] for r in RTCMReader(make_socket(data, inp.get("schedule", [])), quitonerror=0, bufsize=inp.get("bufsize", 4096))]
+    return {"fails": a != b, "expected": [x.hex()[:20] for x in a][:6], "observed": [x.hex()[:20] for x in b][:6]}
+
+
+def chunked_encode(bodies, comp, upper, zero):
+    """RFC 9112 7.1 chunked body; each chunk body optionally compressed (comp: 0 none, 2 gzip, 4 zlib, 8 raw deflate)."""
+    import zlib
+    out = b""
+    for b in bodies:
+        if comp == 2:
+            c = zlib.compressobj(wbits=31)
+            b = c.compress(b) + c.flush()
+        elif comp == 4:
+            b = zlib.compress(b)
+        elif comp == 8:
+            c = zlib.compressobj(wbits=-15)
+            b = c.compress(b) + c.flush()
+        size = ("%X" if upper else "%x") % len(b)
+        out += size.encode() + b"\r\n" + b + b"\r\n"
+    if zero:
+        out += b"0\r\n\r\n"
+    return out
+
+
+@check
+def chunked(inp):
+    """C12: bytes delivered == concatenation of the decoded chunk bodies, for one segmentation of one body."""
+    from pyrtcm.socketwrapper import SocketWrapper
+    bodies = [bytes.fromhex(h) for h in inp["bodies"]]
+    comp = inp.get("comp", 0)
+    enc = chunked_encode(bodies, comp, inp.get("upper", False), inp.get("zero", True))
+    cuts = sorted(set(c for c in inp.get("cuts", []) if 0 < c < len(enc)))
+    segs = [b - a for a, b in zip([0] + cuts, cuts + [len(enc)])]
+    sock = make_socket(enc, segs)
+    w = SocketWrapper(sock, encoding=1 | comp, bufsize=len(enc) + 10)
+    got = b""
+    want = b"".join(bodies)
+    for _ in range(len(enc) + len(want) + 10):
+        r = w.read(1)
+        if not r:
+            if sock.pos >= len(enc):
+                break
+            continue
+        got += r
+    return {"fails": got != want, "expected": want.hex()[:80], "observed": got.hex()[:80], "encoded": enc.hex()[:120], "segments": segs}
